@@ -528,7 +528,7 @@ func ruleScopeLex(c *Ctx) []Obligation {
 			}
 			startsAtT, stepsUp := false, false
 			for _, e := range phi.Edges {
-				if mi, ok := e.(*ssa.MakeInterface); ok && mi.X == ssa.Value(res.Params[0]) {
+				if mi, ok := e.(*ssa.MakeInterface); ok && isParamN(res, mi.X, 0) {
 					startsAtT = true
 				}
 				if call, ok := e.(*ssa.Call); ok && invokeName(call) == "ParentNode" && call.Call.Value == ssa.Value(phi) {
@@ -554,7 +554,7 @@ func ruleScopeLex(c *Ctx) []Obligation {
 	if fe != nil && find != nil {
 		var modv ssa.Value
 		for _, ci := range c.callsTo(fe, fbp) {
-			if ci.Common().Args[0] == ssa.Value(fe.Params[1]) {
+			if isParamN(fe, ci.Common().Args[0], 1) {
 				modv = ci.Value()
 			}
 		}
